@@ -100,7 +100,7 @@ def check_property(pid, tier, seed):
                 samples.append({"obligation": r.obligations[0]["name"], "engine": "verus",
                                 "contract_source": u["template"], "status": r.obligations[0]["status"]})
         # ------------------------------------------------------------------ Kani units
-        for k in spec.get("kani", []):
+        for k in (spec.get("kani", []) if os.environ.get("VERIF_ENGINES", "") != "verus" else []):
             inject = k.get("inject", ())
             meta = harness_meta(list(k["files"]) + [i["file"] for i in inject])
             sel = [n for n, d in meta.items() if d["tier"] == "quick" or tier == "thorough"]
@@ -176,6 +176,8 @@ def check_property(pid, tier, seed):
     n_total = len(obligations)
     n_disch = sum(1 for o in obligations if o["status"] == "discharged")
     min_ob = spec.get("min_obligations", {}).get(tier, 1)
+    if os.environ.get("VERIF_ENGINES"):
+        min_ob = 1   # partial run (development aid): not a registered check
     if n_total < min_ob and not tool_errors:
         tool_errors.append(f"{pid}: only {n_total} obligations generated, expected at least {min_ob}")
 
@@ -307,6 +309,10 @@ def main(argv):
         kani_runner.ensure_kani_cache()
         print("setup ok")
         return 0
+    if len(argv) >= 2 and argv[1] == "selftest":
+        from . import selftest
+        rest = [a for a in argv[2:] if not a.startswith("--")]
+        return selftest.run(rest, verus_only="--verus-only" in argv)
     if len(argv) >= 3 and argv[1] == "replay":
         return replay(argv[2])
     pid = argv[1]
